@@ -1079,6 +1079,7 @@ func newManagerLiveInstance() (*instance, error) {
 	in.close = func() {
 		m.Close()
 		srv.Close()
+		rig.ReleasePort(addr)
 	}
 	return in, nil
 }
